@@ -660,6 +660,74 @@ def canon_poly_nz(poly, prob):
     return '|'.join(sorted(f"{rat(fr(b))}@{'&'.join(sorted(lab(v) for v in k))}" for k, b in poly.items()))
 
 
+class InitChild(dimod.Sampler):
+    """test-only child that takes `initial_state` (no reference sampler does) and returns it as its one row"""
+    properties = None
+    parameters = None
+
+    def __init__(self):
+        self.properties = {}
+        self.parameters = {'initial_state': []}
+
+    def sample(self, bqm, initial_state=None, **kw):
+        return dimod.SampleSet.from_samples_bqm(initial_state, bqm)
+
+
+def section_initial_state(ctx, r, corr):
+    """HigherOrderComposite(initial_state=...) / expand_initial_state"""
+    for pi in range(ctx.scale(600, 10000)):
+        prob = PolyProblem(r, nmax=5)
+        if not prob.labels:
+            continue
+        strength = float(r.choice([1, 2, F(1, 2), 4]))
+        poly = prob.poly()
+        bqm = make_quadratic(poly, strength, vartype=prob.vartype)
+        init = {v: r.choice(prob.domain(v)) for v in prob.labels}
+        src = prob.src()
+        full = hoc.expand_initial_state(bqm, dict(init))
+        ctx.case(('expand', pi, prob.vartype, len(bqm.info['reduction']), tuple(init.values())), nontrivial=bool(bqm.info['reduction']))
+        ctx.tick('direct:expand_initial_state' + (':spin-aux' if any('auxiliary' in ch for ch in bqm.info['reduction'].values()) else ''))
+        reds = []
+        okp = all(full[v] == init[v] for v in init) and set(full) == set(init) | {x for ch in bqm.info['reduction'].values() for x in ch.values()}
+        for (u, v), ch in bqm.info['reduction'].items():
+            p = ch['product']
+            okp = okp and full[p] == full[u] * full[v]
+            item = [lab(u), lab(v), lab(p)]
+            if 'auxiliary' in ch:
+                a = ch['auxiliary']
+                cu, cv, cp = (fr(bqm.adj[a].get(k, 0)) for k in (u, v, p))
+                en = full[u] * cu + full[v] * cv + full[p] * cp
+                okp = okp and full[a] in (-1, 1) and en * full[a] <= -en * full[a]
+                item += [lab(a), rat(cu), rat(cv), rat(cp)]
+            reds.append('&'.join(item))
+        if not okp:
+            ctx.fail('property', 'expand_initial_state', prob.vartype, f'expanded state {full} of {init}: a product variable is not the product of its factors, or an auxiliary spin does not minimise its penalty',
+                     repro=PRE + src + 'from dimod.higherorder.utils import make_quadratic\nfrom dimod.reference.composites.higherordercomposites import expand_initial_state\n'
+                                        f'bqm = make_quadratic(POLY, {strength!r}, vartype=POLY.vartype)\nst = expand_initial_state(bqm, {init!r})\n'
+                                        "assert all(st[ch['product']] == st[u] * st[v] for (u, v), ch in bqm.info['reduction'].items()), st\n")
+            continue
+        corr.add('expand ; ' + ','.join(reds) + ' ; ' + ','.join(f'{lab(v)}={x}' for v, x in init.items()),
+                 ','.join(sorted(f'{lab(v)}={rat(F(int(x)))}' for v, x in full.items())), 'expand_initial_state', src)
+        # through the composite: the one returned row is the initial state, penalties satisfied, true energy
+        keep, discard = r.random() < .5, r.random() < .5
+        call = f'dimod.HigherOrderComposite(InitChild()).sample_poly(POLY, initial_state={init!r}, penalty_strength={strength!r}, keep_penalty_variables={keep}, discard_unsatisfied={discard})'
+        try:
+            ss = dimod.HigherOrderComposite(InitChild()).sample_poly(poly, initial_state=dict(init), penalty_strength=strength,
+                                                                      keep_penalty_variables=keep, discard_unsatisfied=discard)
+        except Exception as e:  # noqa
+            ctx.fail('property', 'HigherOrderComposite.sample_poly', f'initial_state {type(e).__name__}', f'{type(e).__name__}: {e}', detail=dict(call=call, problem=src))
+            continue
+        ctx.case(('hoc-init', pi, keep, discard), nontrivial=True); ctx.tick('poly:hoc:initial_state')
+        aux = [v for v in ss.variables if v not in prob.labels] if keep else []
+        f = predicate(ss, prob, prob.vartype + ' initial_state', aux=aux, fixed={v: F(x) for v, x in init.items()})
+        if f is None and (len(ss) != 1 or not all(ss.record.penalty_satisfaction)):
+            f = ('initial_state rows', f'{len(ss)} rows / penalty flags {list(ss.record.penalty_satisfaction)}: the expanded initial state satisfies every penalty',
+                 'assert len(ss) == 1 and all(ss.record.penalty_satisfaction)')
+        if f is not None:
+            ic, what, assertion = f
+            ctx.fail('property', 'HigherOrderComposite.sample_poly', ic, what, detail=dict(call=call, problem=src))
+
+
 # ------------------------------------------------------------------ section D: DQM and CQM exact solvers
 
 def section_dqm(ctx, r, corr):
@@ -843,6 +911,7 @@ def run(ctx):
     section_orders(ctx, r, corr)
     section_bqm(ctx, r, corr)
     section_poly(ctx, r, corr)
+    section_initial_state(ctx, r, corr)
     section_dqm(ctx, r, corr)
     section_cqm(ctx, r, corr)
     got = run_driver('enumdriver', corr.lines)
